@@ -232,6 +232,21 @@ theorem rlock_released_on_every_exit {c : Cfg} (hre : c.reentrant = true) {sv : 
   | none => exact ⟨rfl, inv.noOwner ho⟩
   | some o => exact absurd ho (h1 o (hall o (inv.isOwner o ho).2.2))
 
+/-- `cache_stable_while_locked`: while a thread holds the cache lock (at any depth) no step of any OTHER thread
+    changes the cache dict - neither its set of names nor any entry.  This is what makes it safe for `__repr__` /
+    `__str__` to walk over `self.keys()` and call `get` on each name inside `with self._lock:` while other threads
+    first-access virtual sensors (which insert names): they can only do so before or after the walk. -/
+theorem cache_stable_while_locked {c : Cfg} (hre : c.reentrant = true) {sv : Nat → Nat} {bad : Nat → Bool}
+    (hsv : Sound c sv bad) {n : Nat} {prog : Tid → List Nat} {s s' : State} (h : Reach c n prog s)
+    {t u : Tid} (ho : s.owner = some t) (hu : u ≠ t) (hs : step c s u = some s') :
+    s'.cache = s.cache := by
+  have inv := reach_inv hre hsv h
+  apply Classical.byContradiction
+  intro hne
+  obtain ⟨hou, _⟩ := step_cache_changes_only_by_owner inv hs hne
+  rw [ho] at hou
+  exact hu (Option.some.inj hou).symm
+
 /-- keys 0,1 raw; key 2 virtual over [0,1]; key 3 virtual over [2,0] (virtual over virtual); key 5 unknown;
     key 6 virtual over [0,5] (its creation function raises) -/
 def kinds : Nat → Kind := fun k =>
